@@ -55,13 +55,20 @@ LvAll == {Chr(97), Chr(10), Chr(40), Chr(45), Dot, BolL, EolL, Bref(1), Cls(FALS
           Bare([t |-> "p", neg |-> FALSE, name |-> "Lu"]), Bare([t |-> "p", neg |-> TRUE, name |-> "N"]),
           Bare([t |-> "b", neg |-> FALSE, name |-> <<71, 114, 101, 101, 107>>]),
           Bare(IE("i")), Bare(IE("C")), Chr(36), Chr(92)}
-LvLaws == {Chr(97), Chr(98), Dot, Cls(FALSE, <<IC(97), IC(98)>>), BolL, Bref(1)}
+AorAB == [k |-> "ncg", r |-> [k |-> "alt", xs |-> <<Chr(97), [k |-> "seq", xs |-> <<Chr(97), Chr(98)>>]>>]]   \* (?:a|ab)
+ABorA == [k |-> "ncg", r |-> [k |-> "alt", xs |-> <<[k |-> "seq", xs |-> <<Chr(97), Chr(98)>>], Chr(97)>>]]   \* (?:ab|a)
+APlus == [k |-> "ncg", r |-> [k |-> "rep", r |-> Chr(97), min |-> 1, max |-> -1, lazy |-> FALSE, q |-> "s"]]   \* (?:a+)
+LvLaws == {Chr(97), Chr(98), Dot, Cls(FALSE, <<IC(97), IC(98)>>), BolL, Bref(1), AorAB, APlus}
+LvVarLen == {Chr(97), Chr(98), AorAB, ABorA, APlus, EolL}           \* bodies that can end at more than one position
+QDial == {QStar, QPlus, QOpt, QStarL, QOptL, Q(1, 1, TRUE, "n"), Q(0, 0, TRUE, "n"), Q(1, 1, FALSE, "n"), Q(2, 2, FALSE, "n"),
+          Q(1, 2, TRUE, "n")}
 QLaws == {QStar, QPlus, QOpt, QPlusL, Q(0, 0, FALSE, "n"), Q(2, 2, FALSE, "n"), Q(1, 2, FALSE, "n"), Q(2, -1, FALSE, "n"),
           Q(0, 2, TRUE, "n"), Q(1, -1, FALSE, "n")}
 LvOpt == {Chr(97), Chr(65), Chr(10), Chr(49), Dot, BolL, EolL, Cls(FALSE, <<IC(97), IC(49)>>), Cls(TRUE, <<IC(97)>>),
           Bare(IE("d")), Bare(IE("s"))}
 QOpt8 == {QStar, QPlus, QOpt, QStarL, Q(2, 2, FALSE, "n"), Q(1, 2, FALSE, "n"), Q(2, -1, FALSE, "n"), Q(3, 3, FALSE, "n")}
 FlagsIM == {Fl(i, m, FALSE) : i \in BOOLEAN, m \in BOOLEAN}
+LvOpt6 == {Chr(97), Chr(65), Chr(10), Dot, BolL, EolL}
 LvAstral == {Chr(66560), Chr(769), Chr(97), Dot, Cls(FALSE, <<IC(66560), IC(97)>>)}
 LvLoop == {Chr(97), Chr(98), BolL, EolL, Bref(1)}
 FlagsM == {NoFlags, Fl(FALSE, TRUE, FALSE)}
@@ -115,11 +122,16 @@ WsChars == {9, 10, 13, 32, 12, 11, 160}           \* the four that flag x remove
 InsAt(p, k, c) == SubSeq(p, 1, k) \o <<c>> \o SubSeq(p, k + 1, Len(p))
 WsSources(pat, F) == {<<InsAt(pat, k, c), FlagCps(F) \o <<120>>, TRUE>> : k \in 0..Len(pat), c \in WsChars}
 
+(* two insertions (a removed character can change how a LATER one is treated) *)
+Ws2Chars == {32, 10}
+Ws2Sources(pat, F) == {<<InsAt(InsAt(pat, k2, c2), k1, c1), FlagCps(F) \o <<120>>, TRUE>> :
+                         k1 \in 0..Len(pat), k2 \in 0..Len(pat), c1 \in Ws2Chars, c2 \in Ws2Chars}
 Sources(a, F) ==
   LET pat == Render(a) IN
   (IF "base" \in Variants THEN {<<pat, FlagCps(F), TRUE>>} ELSE {})
   \cup (IF "xsd" \in Variants THEN {<<pat, FlagCps(F), FALSE>>} ELSE {})
   \cup (IF "ws" \in Variants THEN WsSources(pat, F) ELSE {})
+  \cup (IF "ws2" \in Variants THEN Ws2Sources(pat, F) ELSE {})
 (* law pairs (C20): both spellings are replayed together and must agree with the spec AND with each other *)
 LawPairs(a, F) == {w \in Rewrites(a) : w.law # "uncapture" \/ ~HasBref(a)}
 PrintPair(a, w, F) ==
